@@ -57,6 +57,7 @@ type OpSpec struct {
 	Inv      []Clause
 	Cases    []opCase
 	Site     int
+	Given    map[string][]string
 }
 
 var onRe = regexp.MustCompile(`^([A-Za-z@_0-9.]+)\s*\(([^)]*)\)\s*(?:when\s+(.*?))?\s*:\s*(.*)$`)
@@ -126,7 +127,17 @@ func parseOpSpec(b *Block) (*OpSpec, error) {
 			sp.Cases = append(sp.Cases, oc)
 		case "site":
 			fmt.Sscan(c.Text, &sp.Site)
-		case "props", "note", "teardown", "mode", "alias", "userfn":
+		case "given":
+			// given <role> : <assumption over the role's parameters> (listed among the assumptions)
+			kv := strings.SplitN(c.Text, ":", 2)
+			if len(kv) != 2 {
+				return nil, fmt.Errorf("%s:%d: given <role> : <expr>", shortFile(c.File), c.Line)
+			}
+			if sp.Given == nil {
+				sp.Given = map[string][]string{}
+			}
+			sp.Given[strings.TrimSpace(kv[0])] = append(sp.Given[strings.TrimSpace(kv[0])], strings.TrimSpace(kv[1]))
+		case "props", "note", "teardown", "mode", "alias", "userfn", "inline":
 		default:
 			return nil, fmt.Errorf("%s:%d: unknown operator clause %q", shortFile(c.File), c.Line, c.Kind)
 		}
@@ -544,7 +555,24 @@ func (mr *machineRun) assumeRequiresInv(x *Exec, st *State, vars map[string]SVal
 }
 
 func (mr *machineRun) hooks(x0 *Exec) Hooks {
-	h := mr.kc.hooks(mr.sp.Block, nil, "", map[string]bool{}, func(st *State, ex *Exit) *Env { return mr.env(x0, st, map[string]SVal{}) })
+	inl := map[string]bool{}
+	for _, c := range mr.sp.Block.all("inline") {
+		for _, f := range strings.Fields(c.Text) {
+			inl[f] = true
+		}
+	}
+	h := mr.kc.hooks(mr.sp.Block, nil, "", inl, func(st *State, ex *Exit) *Env {
+		vars := map[string]SVal{}
+		if len(st.Frames) > 0 {
+			fr := st.Frames[0]
+			for _, p := range fr.Fn.Params {
+				if v, ok := fr.Vals[p]; ok {
+					vars[p.Name()] = v
+				}
+			}
+		}
+		return mr.env(x0, st, vars)
+	})
 	tdCells := cellsWrittenBy(mr.site.Teardowns)
 	h.OnEvent = func(x *Exec, st *State, ev *Event) {
 		if !strings.HasPrefix(ev.Name, "destination.") {
@@ -570,7 +598,7 @@ type pathEnd struct {
 // effective returns the destination events of a path truncated after the first terminal.
 func effective(evs []Event) (out []Event, closed bool) {
 	for _, ev := range evs {
-		if !strings.HasPrefix(ev.Name, "destination.") {
+		if !strings.HasPrefix(ev.Name, "destination.") && !strings.HasPrefix(ev.Name, "loop:") {
 			continue
 		}
 		out = append(out, ev)
@@ -607,6 +635,14 @@ func (mr *machineRun) runRole(role string, t *obsTriple, idx int, cases []opCase
 		}
 	}
 	mr.assumeRequiresInv(x, st, vars)
+	for _, g := range mr.sp.Given[role] {
+		t, err := mr.env(x, st, vars).evalBool(g)
+		if err != nil {
+			mr.u.Errs = append(mr.u.Errs, fmt.Sprintf("%s: given %s: %v", mr.sp.Name, role, err))
+			continue
+		}
+		st.assume(t)
+	}
 	pos := ""
 	switch a := arg.(type) {
 	case *ssa.MakeClosure:
